@@ -177,13 +177,20 @@ def run(prop, tier, seed):
             recs.append({"k": "elem", "e": [k[0] * 2, k[1] * 2, k[2] * 2, k[3] * 2], "quarters": q_int, "signs": SIGNS})
         # 2. generic atoms
         for with_m0 in (False, True):
-            with contextlib.redirect_stdout(io.StringIO()):
-                hier = HierarchicalErrorEstimator(SL=AtomSL(), M0=AtomM0() if with_m0 else None, g=atom_g).estimate(elems, Phi)
-                hh2 = HH2ErrorEstimator(SL=AtomSL(), M0=AtomM0() if with_m0 else None, g=atom_g, use_mp=False).estimate(elems, Phi)
-            mh = model_hier([raw(e) for e in elems], Phi, with_m0)
-            worst = max(dev(hier[i, c], mh[i, c], 1e-11 * abs(mh[i, c])) for i in range(N) for c in (0, 1))
-            recs.append({"k": "num", "cls": "hier-atoms", "dev": worst, "curve": name, "with_m0": with_m0})
-            num("hh2-atoms", hh2, model_hh2([raw(e) for e in elems], Phi, with_m0), 1e-10 * abs(hh2), curve=name, with_m0=with_m0)
+            # the same estimator objects are used for two densities and for a sub-list: no state may survive a call
+            H_ = HierarchicalErrorEstimator(SL=AtomSL(), M0=AtomM0() if with_m0 else None, g=atom_g)
+            H2_ = HH2ErrorEstimator(SL=AtomSL(), M0=AtomM0() if with_m0 else None, g=atom_g, use_mp=False)
+            Phi_b = np.array([rng.uniform(-2, 2) for _ in range(N)])
+            sub = list(range(0, N, 2))
+            for els_, raws_, Ph_ in ((elems, [raw(e) for e in elems], Phi), ([elems[j] for j in sub], [raw(elems[j]) for j in sub], Phi_b[sub]),
+                                     (elems, [raw(e) for e in elems], Phi_b)):
+                with contextlib.redirect_stdout(io.StringIO()):
+                    hier = H_.estimate(els_, Ph_)
+                    hh2 = H2_.estimate(els_, Ph_)
+                mh = model_hier(raws_, Ph_, with_m0)
+                worst = max(dev(hier[i, c], mh[i, c], 1e-11 * abs(mh[i, c])) for i in range(len(els_)) for c in (0, 1))
+                recs.append({"k": "num", "cls": "hier-atoms", "dev": worst, "curve": name, "with_m0": with_m0, "n": len(els_)})
+                num("hh2-atoms", hh2, model_hh2(raws_, Ph_, with_m0), 1e-10 * abs(hh2), curve=name, with_m0=with_m0, n=len(els_))
         # 3. numerical equality with the definition (Dirichlet data g = 1: g-linform = h_t h_x)
         with contextlib.redirect_stdout(io.StringIO()):
             SL = SingleLayerOperator(mesh)
